@@ -7,63 +7,63 @@ open ImathVerif
 
 /-- extracted from the C++ template at T = Sym; 1 path(s) -/
 def M44.setEulerAngles {α : Type} [Add α] [Mul α] [Neg α] [OfNat α 0] [OfNat α 1] (sin : α → α) (cos : α → α) (m : M44 α) (r : V3 α) : (M44 α) :=
-  let t2609 := (cos r.z)
-  let t2610 := (cos r.y)
-  let t2611 := (cos r.x)
-  let t2612 := (sin r.z)
-  let t2613 := (sin r.y)
-  let t2614 := (sin r.x)
-  let t2618 := (t2609 * t2613)
-  let t2623 := (t2612 * t2613)
-  ⟨(t2609 * t2610), (t2612 * t2610), (-t2613), (0 : α), (((-t2612) * t2611) + (t2618 * t2614)), ((t2609 * t2611) + (t2623 * t2614)), (t2610 * t2614), (0 : α), ((t2612 * t2614) + (t2618 * t2611)), (((-t2609) * t2614) + (t2623 * t2611)), (t2610 * t2611), (0 : α), (0 : α), (0 : α), (0 : α), (1 : α)⟩
+  let t2648 := (cos r.z)
+  let t2649 := (cos r.y)
+  let t2650 := (cos r.x)
+  let t2651 := (sin r.z)
+  let t2652 := (sin r.y)
+  let t2653 := (sin r.x)
+  let t2657 := (t2648 * t2652)
+  let t2662 := (t2651 * t2652)
+  ⟨(t2648 * t2649), (t2651 * t2649), (-t2652), (0 : α), (((-t2651) * t2650) + (t2657 * t2653)), ((t2648 * t2650) + (t2662 * t2653)), (t2649 * t2653), (0 : α), ((t2651 * t2653) + (t2657 * t2650)), (((-t2648) * t2653) + (t2662 * t2650)), (t2649 * t2650), (0 : α), (0 : α), (0 : α), (0 : α), (1 : α)⟩
 
 /-- extracted from the C++ template at T = Sym; 2 path(s) -/
 def M44.setAxisAngle {α : Type} [Add α] [Sub α] [Mul α] [Div α] [Neg α] [LT α] [LE α] [DecidableLT α] [DecidableLE α] [DecidableEq α] [OfNat α 0] [OfNat α 1] [OfNat α 2] (tmin : α) (tmax : α) (sqrt : α → α) (sin : α → α) (cos : α → α) (m : M44 α) (axis : V3 α) (angle : α) : (M44 α) :=
-  let t2640 := (V3.length tmin tmax sqrt ⟨axis.x, axis.y, axis.z⟩)
-  let t2641 := (sin angle)
-  let t2642 := (cos angle)
-  let t2643 := ((1 : α) - t2642)
-  let t2644 := (((0 : α) * (0 : α)) * t2643)
-  let t2645 := (t2644 + t2642)
-  let t2646 := ((0 : α) * t2641)
-  let t2647 := (t2644 + t2646)
-  let t2648 := (t2644 - t2646)
-  let t2649 := (axis.z / t2640)
-  let t2650 := (axis.y / t2640)
-  let t2651 := (axis.x / t2640)
-  let t2655 := (t2649 * t2641)
-  let t2657 := ((t2651 * t2650) * t2643)
-  let t2659 := (t2650 * t2641)
-  let t2661 := ((t2651 * t2649) * t2643)
-  let t2667 := (t2651 * t2641)
-  let t2669 := ((t2650 * t2649) * t2643)
-  if t2640 = (0 : α) then
-    ⟨t2645, t2647, t2648, (0 : α), t2648, t2645, t2647, (0 : α), t2647, t2648, t2645, (0 : α), (0 : α), (0 : α), (0 : α), (1 : α)⟩
+  let t2679 := (V3.length tmin tmax sqrt ⟨axis.x, axis.y, axis.z⟩)
+  let t2680 := (sin angle)
+  let t2681 := (cos angle)
+  let t2682 := ((1 : α) - t2681)
+  let t2683 := (((0 : α) * (0 : α)) * t2682)
+  let t2684 := (t2683 + t2681)
+  let t2685 := ((0 : α) * t2680)
+  let t2686 := (t2683 + t2685)
+  let t2687 := (t2683 - t2685)
+  let t2688 := (axis.z / t2679)
+  let t2689 := (axis.y / t2679)
+  let t2690 := (axis.x / t2679)
+  let t2694 := (t2688 * t2680)
+  let t2696 := ((t2690 * t2689) * t2682)
+  let t2698 := (t2689 * t2680)
+  let t2700 := ((t2690 * t2688) * t2682)
+  let t2706 := (t2690 * t2680)
+  let t2708 := ((t2689 * t2688) * t2682)
+  if t2679 = (0 : α) then
+    ⟨t2684, t2686, t2687, (0 : α), t2687, t2684, t2686, (0 : α), t2686, t2687, t2684, (0 : α), (0 : α), (0 : α), (0 : α), (1 : α)⟩
   else
-    ⟨(((t2651 * t2651) * t2643) + t2642), (t2657 + t2655), (t2661 - t2659), (0 : α), (t2657 - t2655), (((t2650 * t2650) * t2643) + t2642), (t2669 + t2667), (0 : α), (t2661 + t2659), (t2669 - t2667), (((t2649 * t2649) * t2643) + t2642), (0 : α), (0 : α), (0 : α), (0 : α), (1 : α)⟩
+    ⟨(((t2690 * t2690) * t2682) + t2681), (t2696 + t2694), (t2700 - t2698), (0 : α), (t2696 - t2694), (((t2689 * t2689) * t2682) + t2681), (t2708 + t2706), (0 : α), (t2700 + t2698), (t2708 - t2706), (((t2688 * t2688) * t2682) + t2681), (0 : α), (0 : α), (0 : α), (0 : α), (1 : α)⟩
 
 /-- extracted from the C++ template at T = Sym; 1 path(s) -/
 def M44.rotate {α : Type} [Add α] [Mul α] [Neg α] (sin : α → α) (cos : α → α) (m : M44 α) (r : V3 α) : (M44 α) :=
-  let t2609 := (cos r.z)
-  let t2610 := (cos r.y)
-  let t2611 := (cos r.x)
-  let t2612 := (sin r.z)
-  let t2613 := (sin r.y)
-  let t2614 := (sin r.x)
-  let t2615 := (t2609 * t2610)
-  let t2616 := (t2612 * t2610)
-  let t2617 := (-t2613)
-  let t2618 := (t2609 * t2613)
-  let t2620 := (-t2612)
-  let t2622 := ((t2620 * t2611) + (t2618 * t2614))
-  let t2623 := (t2612 * t2613)
-  let t2626 := ((t2609 * t2611) + (t2623 * t2614))
-  let t2627 := (t2610 * t2614)
-  let t2635 := (t2610 * t2611)
-  let t2676 := (-t2614)
-  let t2678 := ((t2620 * t2676) + (t2618 * t2611))
-  let t2680 := ((t2609 * t2676) + (t2623 * t2611))
-  ⟨(((m.x00 * t2615) + (m.x10 * t2616)) + (m.x20 * t2617)), (((m.x01 * t2615) + (m.x11 * t2616)) + (m.x21 * t2617)), (((m.x02 * t2615) + (m.x12 * t2616)) + (m.x22 * t2617)), (((m.x03 * t2615) + (m.x13 * t2616)) + (m.x23 * t2617)), (((m.x00 * t2622) + (m.x10 * t2626)) + (m.x20 * t2627)), (((m.x01 * t2622) + (m.x11 * t2626)) + (m.x21 * t2627)), (((m.x02 * t2622) + (m.x12 * t2626)) + (m.x22 * t2627)), (((m.x03 * t2622) + (m.x13 * t2626)) + (m.x23 * t2627)), (((m.x00 * t2678) + (m.x10 * t2680)) + (m.x20 * t2635)), (((m.x01 * t2678) + (m.x11 * t2680)) + (m.x21 * t2635)), (((m.x02 * t2678) + (m.x12 * t2680)) + (m.x22 * t2635)), (((m.x03 * t2678) + (m.x13 * t2680)) + (m.x23 * t2635)), m.x30, m.x31, m.x32, m.x33⟩
+  let t2648 := (cos r.z)
+  let t2649 := (cos r.y)
+  let t2650 := (cos r.x)
+  let t2651 := (sin r.z)
+  let t2652 := (sin r.y)
+  let t2653 := (sin r.x)
+  let t2654 := (t2648 * t2649)
+  let t2655 := (t2651 * t2649)
+  let t2656 := (-t2652)
+  let t2657 := (t2648 * t2652)
+  let t2659 := (-t2651)
+  let t2661 := ((t2659 * t2650) + (t2657 * t2653))
+  let t2662 := (t2651 * t2652)
+  let t2665 := ((t2648 * t2650) + (t2662 * t2653))
+  let t2666 := (t2649 * t2653)
+  let t2674 := (t2649 * t2650)
+  let t2715 := (-t2653)
+  let t2717 := ((t2659 * t2715) + (t2657 * t2650))
+  let t2719 := ((t2648 * t2715) + (t2662 * t2650))
+  ⟨(((m.x00 * t2654) + (m.x10 * t2655)) + (m.x20 * t2656)), (((m.x01 * t2654) + (m.x11 * t2655)) + (m.x21 * t2656)), (((m.x02 * t2654) + (m.x12 * t2655)) + (m.x22 * t2656)), (((m.x03 * t2654) + (m.x13 * t2655)) + (m.x23 * t2656)), (((m.x00 * t2661) + (m.x10 * t2665)) + (m.x20 * t2666)), (((m.x01 * t2661) + (m.x11 * t2665)) + (m.x21 * t2666)), (((m.x02 * t2661) + (m.x12 * t2665)) + (m.x22 * t2666)), (((m.x03 * t2661) + (m.x13 * t2665)) + (m.x23 * t2666)), (((m.x00 * t2717) + (m.x10 * t2719)) + (m.x20 * t2674)), (((m.x01 * t2717) + (m.x11 * t2719)) + (m.x21 * t2674)), (((m.x02 * t2717) + (m.x12 * t2719)) + (m.x22 * t2674)), (((m.x03 * t2717) + (m.x13 * t2719)) + (m.x23 * t2674)), m.x30, m.x31, m.x32, m.x33⟩
 
 /-- extracted from the C++ template at T = Sym; 1 path(s) -/
 def M44.setScaleS {α : Type} [OfNat α 0] [OfNat α 1] (m : M44 α) (s : α) : (M44 α) :=
@@ -111,19 +111,19 @@ def M44.translateRet {α : Type} [Add α] [Mul α] (m : M44 α) (t : V3 α) : (M
 
 /-- extracted from the C++ template at T = Sym; 1 path(s) -/
 def M33.setRotation {α : Type} [Neg α] [OfNat α 0] [OfNat α 1] (sin : α → α) (cos : α → α) (m : M33 α) (r : α) : (M33 α) :=
-  let t2866 := (cos r)
-  let t2867 := (sin r)
-  ⟨t2866, t2867, (0 : α), (-t2867), t2866, (0 : α), (0 : α), (0 : α), (1 : α)⟩
+  let t2905 := (cos r)
+  let t2906 := (sin r)
+  ⟨t2905, t2906, (0 : α), (-t2906), t2905, (0 : α), (0 : α), (0 : α), (1 : α)⟩
 
 /-- extracted from the C++ template at T = Sym; 1 path(s) -/
 def M33.rotate {α : Type} [Add α] [Mul α] [Neg α] [OfNat α 0] [OfNat α 1] (sin : α → α) (cos : α → α) (m : M33 α) (r : α) : (M33 α) :=
-  let t2866 := (cos r)
-  let t2867 := (sin r)
-  let t2868 := (-t2867)
-  let t2869 := (m.x02 * (0 : α))
-  let t2883 := (m.x12 * (0 : α))
-  let t2897 := (m.x22 * (0 : α))
-  ⟨(((m.x00 * t2866) + (m.x01 * t2868)) + t2869), (((m.x00 * t2867) + (m.x01 * t2866)) + t2869), (((m.x00 * (0 : α)) + (m.x01 * (0 : α))) + (m.x02 * (1 : α))), (((m.x10 * t2866) + (m.x11 * t2868)) + t2883), (((m.x10 * t2867) + (m.x11 * t2866)) + t2883), (((m.x10 * (0 : α)) + (m.x11 * (0 : α))) + (m.x12 * (1 : α))), (((m.x20 * t2866) + (m.x21 * t2868)) + t2897), (((m.x20 * t2867) + (m.x21 * t2866)) + t2897), (((m.x20 * (0 : α)) + (m.x21 * (0 : α))) + (m.x22 * (1 : α)))⟩
+  let t2905 := (cos r)
+  let t2906 := (sin r)
+  let t2907 := (-t2906)
+  let t2908 := (m.x02 * (0 : α))
+  let t2922 := (m.x12 * (0 : α))
+  let t2936 := (m.x22 * (0 : α))
+  ⟨(((m.x00 * t2905) + (m.x01 * t2907)) + t2908), (((m.x00 * t2906) + (m.x01 * t2905)) + t2908), (((m.x00 * (0 : α)) + (m.x01 * (0 : α))) + (m.x02 * (1 : α))), (((m.x10 * t2905) + (m.x11 * t2907)) + t2922), (((m.x10 * t2906) + (m.x11 * t2905)) + t2922), (((m.x10 * (0 : α)) + (m.x11 * (0 : α))) + (m.x12 * (1 : α))), (((m.x20 * t2905) + (m.x21 * t2907)) + t2936), (((m.x20 * t2906) + (m.x21 * t2905)) + t2936), (((m.x20 * (0 : α)) + (m.x21 * (0 : α))) + (m.x22 * (1 : α)))⟩
 
 /-- extracted from the C++ template at T = Sym; 1 path(s) -/
 def M33.setScaleS {α : Type} [OfNat α 0] [OfNat α 1] (m : M33 α) (s : α) : (M33 α) :=
@@ -167,16 +167,16 @@ def M33.shearV {α : Type} [Add α] [Mul α] (m : M33 α) (h : V2 α) : (M33 α)
 
 /-- extracted from the C++ template at T = Sym; 1 path(s) -/
 def M22.setRotation {α : Type} [Neg α] (sin : α → α) (cos : α → α) (m : M22 α) (r : α) : (M22 α) :=
-  let t2866 := (cos r)
-  let t2867 := (sin r)
-  ⟨t2866, t2867, (-t2867), t2866⟩
+  let t2905 := (cos r)
+  let t2906 := (sin r)
+  ⟨t2905, t2906, (-t2906), t2905⟩
 
 /-- extracted from the C++ template at T = Sym; 1 path(s) -/
 def M22.rotate {α : Type} [Add α] [Mul α] [Neg α] [OfNat α 0] (sin : α → α) (cos : α → α) (m : M22 α) (r : α) : (M22 α) :=
-  let t2866 := (cos r)
-  let t2867 := (sin r)
-  let t2868 := (-t2867)
-  ⟨(((0 : α) + (m.x00 * t2866)) + (m.x01 * t2868)), (((0 : α) + (m.x00 * t2867)) + (m.x01 * t2866)), (((0 : α) + (m.x10 * t2866)) + (m.x11 * t2868)), (((0 : α) + (m.x10 * t2867)) + (m.x11 * t2866))⟩
+  let t2905 := (cos r)
+  let t2906 := (sin r)
+  let t2907 := (-t2906)
+  ⟨(((0 : α) + (m.x00 * t2905)) + (m.x01 * t2907)), (((0 : α) + (m.x00 * t2906)) + (m.x01 * t2905)), (((0 : α) + (m.x10 * t2905)) + (m.x11 * t2907)), (((0 : α) + (m.x10 * t2906)) + (m.x11 * t2905))⟩
 
 /-- extracted from the C++ template at T = Sym; 1 path(s) -/
 def M22.setScaleS {α : Type} [OfNat α 0] (m : M22 α) (s : α) : (M22 α) :=
@@ -204,26 +204,26 @@ def M44.shear6Ret {α : Type} [Add α] [Mul α] (m : M44 α) (h : Shear6 α) : (
 
 /-- extracted from the C++ template at T = Sym; 1 path(s) -/
 def M44.rotateRet {α : Type} [Add α] [Mul α] [Neg α] (sin : α → α) (cos : α → α) (m : M44 α) (r : V3 α) : (M44 α) :=
-  let t2609 := (cos r.z)
-  let t2610 := (cos r.y)
-  let t2611 := (cos r.x)
-  let t2612 := (sin r.z)
-  let t2613 := (sin r.y)
-  let t2614 := (sin r.x)
-  let t2615 := (t2609 * t2610)
-  let t2616 := (t2612 * t2610)
-  let t2617 := (-t2613)
-  let t2618 := (t2609 * t2613)
-  let t2620 := (-t2612)
-  let t2622 := ((t2620 * t2611) + (t2618 * t2614))
-  let t2623 := (t2612 * t2613)
-  let t2626 := ((t2609 * t2611) + (t2623 * t2614))
-  let t2627 := (t2610 * t2614)
-  let t2635 := (t2610 * t2611)
-  let t2676 := (-t2614)
-  let t2678 := ((t2620 * t2676) + (t2618 * t2611))
-  let t2680 := ((t2609 * t2676) + (t2623 * t2611))
-  ⟨(((m.x00 * t2615) + (m.x10 * t2616)) + (m.x20 * t2617)), (((m.x01 * t2615) + (m.x11 * t2616)) + (m.x21 * t2617)), (((m.x02 * t2615) + (m.x12 * t2616)) + (m.x22 * t2617)), (((m.x03 * t2615) + (m.x13 * t2616)) + (m.x23 * t2617)), (((m.x00 * t2622) + (m.x10 * t2626)) + (m.x20 * t2627)), (((m.x01 * t2622) + (m.x11 * t2626)) + (m.x21 * t2627)), (((m.x02 * t2622) + (m.x12 * t2626)) + (m.x22 * t2627)), (((m.x03 * t2622) + (m.x13 * t2626)) + (m.x23 * t2627)), (((m.x00 * t2678) + (m.x10 * t2680)) + (m.x20 * t2635)), (((m.x01 * t2678) + (m.x11 * t2680)) + (m.x21 * t2635)), (((m.x02 * t2678) + (m.x12 * t2680)) + (m.x22 * t2635)), (((m.x03 * t2678) + (m.x13 * t2680)) + (m.x23 * t2635)), m.x30, m.x31, m.x32, m.x33⟩
+  let t2648 := (cos r.z)
+  let t2649 := (cos r.y)
+  let t2650 := (cos r.x)
+  let t2651 := (sin r.z)
+  let t2652 := (sin r.y)
+  let t2653 := (sin r.x)
+  let t2654 := (t2648 * t2649)
+  let t2655 := (t2651 * t2649)
+  let t2656 := (-t2652)
+  let t2657 := (t2648 * t2652)
+  let t2659 := (-t2651)
+  let t2661 := ((t2659 * t2650) + (t2657 * t2653))
+  let t2662 := (t2651 * t2652)
+  let t2665 := ((t2648 * t2650) + (t2662 * t2653))
+  let t2666 := (t2649 * t2653)
+  let t2674 := (t2649 * t2650)
+  let t2715 := (-t2653)
+  let t2717 := ((t2659 * t2715) + (t2657 * t2650))
+  let t2719 := ((t2648 * t2715) + (t2662 * t2650))
+  ⟨(((m.x00 * t2654) + (m.x10 * t2655)) + (m.x20 * t2656)), (((m.x01 * t2654) + (m.x11 * t2655)) + (m.x21 * t2656)), (((m.x02 * t2654) + (m.x12 * t2655)) + (m.x22 * t2656)), (((m.x03 * t2654) + (m.x13 * t2655)) + (m.x23 * t2656)), (((m.x00 * t2661) + (m.x10 * t2665)) + (m.x20 * t2666)), (((m.x01 * t2661) + (m.x11 * t2665)) + (m.x21 * t2666)), (((m.x02 * t2661) + (m.x12 * t2665)) + (m.x22 * t2666)), (((m.x03 * t2661) + (m.x13 * t2665)) + (m.x23 * t2666)), (((m.x00 * t2717) + (m.x10 * t2719)) + (m.x20 * t2674)), (((m.x01 * t2717) + (m.x11 * t2719)) + (m.x21 * t2674)), (((m.x02 * t2717) + (m.x12 * t2719)) + (m.x22 * t2674)), (((m.x03 * t2717) + (m.x13 * t2719)) + (m.x23 * t2674)), m.x30, m.x31, m.x32, m.x33⟩
 
 /-- extracted from the C++ template at T = Sym; 1 path(s) -/
 def M33.translateRet {α : Type} [Add α] [Mul α] (m : M33 α) (t : V2 α) : (M33 α) :=
@@ -243,20 +243,20 @@ def M33.shearVRet {α : Type} [Add α] [Mul α] (m : M33 α) (h : V2 α) : (M33 
 
 /-- extracted from the C++ template at T = Sym; 1 path(s) -/
 def M33.rotateRet {α : Type} [Add α] [Mul α] [Neg α] [OfNat α 0] [OfNat α 1] (sin : α → α) (cos : α → α) (m : M33 α) (r : α) : (M33 α) :=
-  let t2866 := (cos r)
-  let t2867 := (sin r)
-  let t2868 := (-t2867)
-  let t2869 := (m.x02 * (0 : α))
-  let t2883 := (m.x12 * (0 : α))
-  let t2897 := (m.x22 * (0 : α))
-  ⟨(((m.x00 * t2866) + (m.x01 * t2868)) + t2869), (((m.x00 * t2867) + (m.x01 * t2866)) + t2869), (((m.x00 * (0 : α)) + (m.x01 * (0 : α))) + (m.x02 * (1 : α))), (((m.x10 * t2866) + (m.x11 * t2868)) + t2883), (((m.x10 * t2867) + (m.x11 * t2866)) + t2883), (((m.x10 * (0 : α)) + (m.x11 * (0 : α))) + (m.x12 * (1 : α))), (((m.x20 * t2866) + (m.x21 * t2868)) + t2897), (((m.x20 * t2867) + (m.x21 * t2866)) + t2897), (((m.x20 * (0 : α)) + (m.x21 * (0 : α))) + (m.x22 * (1 : α)))⟩
+  let t2905 := (cos r)
+  let t2906 := (sin r)
+  let t2907 := (-t2906)
+  let t2908 := (m.x02 * (0 : α))
+  let t2922 := (m.x12 * (0 : α))
+  let t2936 := (m.x22 * (0 : α))
+  ⟨(((m.x00 * t2905) + (m.x01 * t2907)) + t2908), (((m.x00 * t2906) + (m.x01 * t2905)) + t2908), (((m.x00 * (0 : α)) + (m.x01 * (0 : α))) + (m.x02 * (1 : α))), (((m.x10 * t2905) + (m.x11 * t2907)) + t2922), (((m.x10 * t2906) + (m.x11 * t2905)) + t2922), (((m.x10 * (0 : α)) + (m.x11 * (0 : α))) + (m.x12 * (1 : α))), (((m.x20 * t2905) + (m.x21 * t2907)) + t2936), (((m.x20 * t2906) + (m.x21 * t2905)) + t2936), (((m.x20 * (0 : α)) + (m.x21 * (0 : α))) + (m.x22 * (1 : α)))⟩
 
 /-- extracted from the C++ template at T = Sym; 1 path(s) -/
 def M22.rotateRet {α : Type} [Add α] [Mul α] [Neg α] [OfNat α 0] (sin : α → α) (cos : α → α) (m : M22 α) (r : α) : (M22 α) :=
-  let t2866 := (cos r)
-  let t2867 := (sin r)
-  let t2868 := (-t2867)
-  ⟨(((0 : α) + (m.x00 * t2866)) + (m.x01 * t2868)), (((0 : α) + (m.x00 * t2867)) + (m.x01 * t2866)), (((0 : α) + (m.x10 * t2866)) + (m.x11 * t2868)), (((0 : α) + (m.x10 * t2867)) + (m.x11 * t2866))⟩
+  let t2905 := (cos r)
+  let t2906 := (sin r)
+  let t2907 := (-t2906)
+  ⟨(((0 : α) + (m.x00 * t2905)) + (m.x01 * t2907)), (((0 : α) + (m.x00 * t2906)) + (m.x01 * t2905)), (((0 : α) + (m.x10 * t2905)) + (m.x11 * t2907)), (((0 : α) + (m.x10 * t2906)) + (m.x11 * t2905))⟩
 
 /-- extracted from the C++ template at T = Sym; 1 path(s) -/
 def M22.scaleRet {α : Type} [Mul α] (m : M22 α) (s : V2 α) : (M22 α) :=
